@@ -45,6 +45,7 @@ type c19In struct {
 	val   int   // unique value written by this op
 	mode  int   // UpdatedWith remap kind / ComputeIf predicate kind
 	viaMp bool  // through the fp.Map wrapper
+	fault bool  // injected fault: the user callback of this operation (remap / f) panics; the client recovers
 }
 
 type c19Out struct {
@@ -54,6 +55,7 @@ type c19Out struct {
 	snap     c19State
 	saw      int // what remap observed (0 absent), -1 not called
 	panicked string
+	injected bool  // the operation ended with the injected callback panic: it must have had no effect
 	retAt    int64 // != 0: the library call returned at this stamp although its result was read later (held iterator)
 }
 
@@ -122,6 +124,12 @@ func (o c19Out) str(in c19In) string {
 	if o.panicked != "" {
 		return "PANIC " + o.panicked
 	}
+	if o.injected {
+		if in.kind == c19UpdatedWith {
+			return fmt.Sprintf("callback panicked (injected) after seeing %d", o.saw)
+		}
+		return "callback panicked (injected)"
+	}
 	switch in.kind {
 	case c19Get:
 		if !o.present {
@@ -175,6 +183,9 @@ var c19Model = porcupine.Model{
 			if out.saw != st[in.key] {
 				return false, st
 			}
+			if out.injected {
+				return true, st // the callback crashed: the operation must not have changed anything
+			}
 			switch in.mode {
 			case rmUpsert:
 				st[in.key] = in.val
@@ -195,6 +206,9 @@ var c19Model = porcupine.Model{
 			if in.kind == c19ComputeIfAbsent {
 				mode = pdNever
 			}
+			if out.injected {
+				return true, st // f crashed before anything was stored
+			}
 			cur := st[in.key]
 			if cur != 0 && !c19Pred(mode, cur) {
 				return out.val == cur, st
@@ -209,6 +223,10 @@ var c19Model = porcupine.Model{
 		return input.(c19In).String() + " -> " + output.(c19Out).str(input.(c19In))
 	},
 }
+
+type c19InjectedPanic struct{}
+
+var c19Injected = c19InjectedPanic{}
 
 type c19Rec struct {
 	client    int
@@ -236,6 +254,9 @@ func execC19(r *sim.Run) {
 	}
 	nKeys := r.Range(1, c19Keys, "nKeys")
 	stallPlan := r.Choose(3, "stall") // 0: callbacks never stall, 1: sometimes, 2: often
+	// injected fault: user callbacks crash (panic) in the middle of an operation, also while the map's lock is held; the
+	// client recovers. The operation must then have had no effect and must not leave the lock held.
+	panicPlan := r.Choose(3, "callbackPanicPlan") // 0: never, 1: rarely, 2: sometimes
 	if stallPlan > 0 {
 		r.Case = "clients+stalls"
 	}
@@ -291,6 +312,9 @@ func execC19(r *sim.Run) {
 			case c19Iter:
 				in.mode = r.Choose(2, "heldIterator")
 			}
+			if panicPlan > 0 && (in.kind == c19UpdatedWith || in.kind == c19ComputeIf || in.kind == c19ComputeIfAbsent) {
+				in.fault = r.Bool(panicPlan, 6, "callbackPanics")
+			}
 			st := 0
 			if stallPlan > 0 && r.Bool(stallPlan, 3, "stallHere") {
 				st = r.Range(1, 2, "stallN")
@@ -309,6 +333,10 @@ func execC19(r *sim.Run) {
 		}
 		defer func() {
 			if e := recover(); e != nil {
+				if e == any(c19Injected) {
+					out.injected = true
+					return
+				}
 				out.panicked = fmt.Sprint(e)
 			}
 		}()
@@ -358,6 +386,10 @@ func execC19(r *sim.Run) {
 					out.saw = ov.Get()
 				}
 				stall("remap")
+				if in.fault {
+					r.Fault("callback-panics")
+					panic(c19Injected)
+				}
 				switch in.mode {
 				case rmUpsert:
 					return fp.Some(in.val)
@@ -386,11 +418,19 @@ func execC19(r *sim.Run) {
 				return c19Pred(in.mode, v)
 			}, func() int {
 				stall("f")
+				if in.fault {
+					r.Fault("callback-panics")
+					panic(c19Injected)
+				}
 				return in.val
 			})
 		case c19ComputeIfAbsent:
 			out.val = cow.ComputeIfAbsent(in.key, func() int {
 				stall("f")
+				if in.fault {
+					r.Fault("callback-panics")
+					panic(c19Injected)
+				}
 				return in.val
 			})
 		}
@@ -523,7 +563,7 @@ func c19CIACheck(r *sim.Run, history []*c19Rec, init c19State) {
 					}
 				}
 			case c19ComputeIfAbsent:
-				if h.in.key == k {
+				if h.in.key == k && !h.out.injected { // a call whose callback crashed returned nothing
 					vals = append(vals, h.out.val)
 				}
 			case c19Get:
